@@ -11,6 +11,10 @@ R14.8  DiscriminatorEnumCollector consults the discriminator mapping on every pa
 R14.7  named union / array members are expanded to their underlying type only when they are primitive aliases (decision evaluated over the `type` domain)
 R14.6  no function of the converter memoises (functools cache / table keyed by the type) data derived from the member order of a typing construct
 R14.5  the generated get_mapping() has one entry per discriminator value (written from the spec's mapping itself)
+R14.11 the discriminator metadata is read from the type as it was handed in (parameter never re-bound before the lookup), and no member
+       of the union is replaced by its own type arguments (an Annotated member keeps its metadata)
+R14.12 a variant rejects what it does not describe: `required` is merged from every allOf component and a required field has no default,
+       so that first-match decoding cannot capture a later variant's payload                                  [= R2.3 / R2.4]
 R14.4  discriminated aliases keep their metadata for every Union spelling the type service can produce
 """
 from __future__ import annotations
@@ -263,7 +267,12 @@ def run(repo: Repo, rep: Report, tier: str) -> None:
     rule_mapping_fallback(repo, rep, "R14.8")
     rule_declared_order(repo, rep, "R14.9")
     rule_mapping_parsed_whole(repo, rep, "R14.10")
+    rule_metadata_from_the_given_type(repo, rep, "R14.11")
 
+    # R14.12: sequential first-match decoding is only as exact as the variants' required fields (rules of C02)
+    from rules._reuse import reuse as _reuse1412
+
+    _reuse1412(repo, rep, "c02", {"R2.3": "R14.12", "R2.4": "R14.12"})
     # ---------------------------------------------------------------- R14.4 alias keeps discriminator metadata
     ra = repo.func("core.writers.python_construct_renderer:PythonConstructRenderer.render_alias")
     AL = Locals(ra.node)
@@ -588,3 +597,93 @@ def rule_mapping_parsed_whole(repo: Repo, rep: Report, rule: str = "R14.10") -> 
                 else:
                     rep.ok(rule, sub, "the IR mapping is a copy of the document's `discriminator.mapping` (no entry is filtered out)", fn.loc(c))
     rep.require(n >= 1, f"{rule}: no IRDiscriminator(mapping=...) construction found in the parser (anchor)")
+
+
+# ------------------------------------------------------------------------------------------------ R14.11 / R14.12 the union's metadata and members are used as given
+def rule_metadata_from_the_given_type(repo: Repo, rep, rule: str = "R14.11") -> None:
+    """The generator renders a discriminated oneOf as `Annotated[Union[...], <Discriminator>()]`: the discriminator exists only in the
+    Annotated metadata of the type handed to _structure_union.  The lookup must therefore read `__metadata__` from that very object:
+    (a) the name whose `__metadata__` is iterated is the type parameter and no assignment to it reaches the lookup (unwrapping the
+    Annotated *into the same variable* loses the discriminator: the hasattr test is then always false and decoding silently falls back
+    to first-success); (b) the loop that classifies the members never replaces a member by its own first type argument
+    (`arg = get_args(arg)[0]`): an `Annotated[Union[...], disc]` *member* (optional discriminated union: `Optional[Annotated[...]]`) would
+    lose its discriminator before it is structured."""
+    conv = repo.module("core.cattrs_converter")
+    su = conv.functions.get("_structure_union")
+    if su is None:
+        raise AnalysisError("anchor vanished: _structure_union")
+    from sa.flatten import flatten
+
+    fn = su
+    def meta_reads(f):
+        out = []
+        for x in own_nodes(f.node):
+            if isinstance(x, ast.Attribute) and x.attr == "__metadata__" and isinstance(x.value, ast.Name):
+                out.append((x, x.value.id))
+            if isinstance(x, ast.Call) and dotted(x.func) in ("getattr", "hasattr") and len(x.args) >= 2 and const_str(x.args[1]) == "__metadata__" and isinstance(x.args[0], ast.Name):
+                out.append((x, x.args[0].id))
+        return out
+
+    reads = meta_reads(fn)
+    if not reads:
+        fn = flatten(su)
+        reads = meta_reads(fn)
+    if not reads:
+        raise AnalysisError(f"{rule}: no read of `<type>.__metadata__` in _structure_union (anchor)")
+    L = Locals(fn.node)
+    if len(fn.params) < 2:
+        raise AnalysisError(f"{rule}: _structure_union(data, union_type) signature changed (anchor)")
+    p_type = fn.params[1]
+    cfg = CFG(fn.node)
+    sub = f"{conv.relpath}:_structure_union discriminator metadata is read from the type as given"
+    bad = None
+    for x, name in reads:
+        root = L.root(name)
+        if root != p_type:
+            # a local: it must be (an alias of) the parameter - anything derived by get_args()/[0] has no metadata of the parameter
+            defs = [v for k, v, _ in L.defs.get(name, []) if v is not None]
+            if defs and all(isinstance(v, ast.Name) and L.root(v.id) == p_type for v in defs):
+                continue
+            bad = bad or (x, f"`{name}` is not the type parameter `{p_type}`")
+            continue
+        # stores to the parameter anywhere in the function (a re-binding reaches the lookup on some path: the lookup follows the unwrapping)
+        stores = [st for st in own_nodes(fn.node) if isinstance(st, (ast.Assign, ast.AnnAssign, ast.AugAssign)) and any(
+            isinstance(t, ast.Name) and t.id == name for t in (st.targets if isinstance(st, ast.Assign) else [st.target]))]
+        stores = [st for st in stores if getattr(st, "lineno", 0) < getattr(x, "lineno", 0)]
+        if stores:
+            bad = bad or (x, f"`{name}` is re-bound before the lookup (`{norm(stores[0])[:60]}`)")
+    if bad:
+        rep.violation(rule, sub, f"{su.fq}|metadata-read-from-derived-type",
+                      f"{bad[1]}: the Annotated metadata (the discriminator) of the type that was passed in is gone when `__metadata__` is consulted - a "
+                      "discriminated union is decoded by first-success and a payload of a later variant comes back as an earlier one", fn.loc(bad[0]))
+    else:
+        rep.ok(rule, sub, f"`{p_type}.__metadata__` - the parameter is never re-bound before the lookup", fn.loc(reads[0][0]))
+    # (b) members stay whole
+    sub2 = f"{conv.relpath}:_structure_union members are classified and structured as given"
+    hit = None
+    n_loops = 0
+    for lp in own_nodes(fn.node):
+        if not (isinstance(lp, ast.For) and isinstance(lp.target, ast.Name)):
+            continue
+        it = L.inline(lp.iter, stop=tuple(L.params))
+        if not any(isinstance(c, ast.Call) and (dotted(c.func) or "").endswith("get_args") for c in ast.walk(it)) and not (
+                isinstance(lp.iter, ast.Name) and any(isinstance(c, ast.Call) and (dotted(c.func) or "").endswith("get_args")
+                                                      for _, v, _ in L.defs.get(lp.iter.id, []) if v is not None for c in ast.walk(v))):
+            continue
+        n_loops += 1
+        v = lp.target.id
+        for st in ast.walk(lp):
+            if isinstance(st, ast.Assign) and any(isinstance(t, ast.Name) and t.id == v for t in st.targets):
+                val = st.value
+                unwrap = any((isinstance(c, ast.Call) and (dotted(c.func) or "").endswith("get_args") and c.args and isinstance(c.args[0], ast.Name) and c.args[0].id == v)
+                             or (isinstance(c, ast.Attribute) and c.attr in ("__args__", "__origin__") and isinstance(c.value, ast.Name) and c.value.id == v)
+                             for c in ast.walk(val))
+                if unwrap:
+                    hit = hit or st
+    rep.require(n_loops >= 1, f"{rule}: no loop over the members (`get_args(...)`) of the union found in _structure_union (anchor)")
+    if hit is not None:
+        rep.violation(rule, sub2, f"{su.fq}|member-unwrapped",
+                      f"`{norm(hit)[:70]}`: a member written as `Annotated[T, meta]` is replaced by `T` before it is structured - for an optional discriminated union "
+                      "(`Optional[Annotated[Union[A, B], Disc()]]`) the discriminator is dropped and the value is decoded by first-success", fn.loc(hit))
+    elif n_loops:
+        rep.ok(rule, sub2, f"{n_loops} loop(s) over the members: none replaces a member by its own type arguments", fn.loc())
